@@ -254,4 +254,218 @@ theorem cryptoBlockX2K_ok (k : Bytes → Bytes) (h : Heap) (x y : Slice) (a b : 
     simpa [word] using this
   rw [hout]; rfl
 
+/-! ### the wrappers: closed forms -/
+
+/-- a well-formed slice that shows at least one byte has an array, and its capacity fits in it -/
+theorem arr_of_len_pos (h : Heap) (s : Slice) (hwf : WF h s) (hl : 0 < s.len) :
+    ∃ a, s.arr = some a ∧ Fits h a (s.off + s.cap) ∧ s.len ≤ s.cap := by
+  have hc : s.len ≤ s.cap := hwf.1
+  obtain ⟨a, h1, h2, h3⟩ := arr_of_cap_pos h s hwf (by omega)
+  exact ⟨a, h1, ⟨h2, h3⟩, hc⟩
+
+theorem read_prefix (h : Heap) (s : Slice) (a n : Nat) (hs : s.arr = some a) :
+    read h { s with len := n } = ((arrayOf h a).drop s.off).take n := by
+  simp [Mem.read, hs]
+
+theorem cryptK_panic (k : Bytes → Bytes) (h : Heap) (dst src : Slice)
+    (hbad : src.len < 16 ∨ dst.len < 16) : cryptK k h dst src = .panic := by
+  unfold cryptK blockSize
+  by_cases h1 : src.len < 16
+  · simp [h1]
+  · rcases hbad with hb | hb
+    · exact absurd hb h1
+    · simp [h1, hb]
+
+theorem cryptAsmK_panic (k : Bytes → Bytes) (h : Heap) (dst src : Slice)
+    (hbad : src.len < 16 ∨ dst.len < 16) : cryptAsmK k h dst src = .panic := by
+  unfold cryptAsmK blockSize
+  by_cases h1 : src.len < 16
+  · simp [h1]
+  · rcases hbad with hb | hb
+    · exact absurd hb h1
+    · simp [h1, hb]
+
+/-- both tests pass: `src[:16]` is read, then `k` of it is stored at `dst[:16]` -/
+theorem cryptK_ok (k : Bytes → Bytes) (h : Heap) (dst src : Slice) (a b : Nat)
+    (hs : src.arr = some a) (hfs : Fits h a (src.off + src.cap)) (hsl : 16 ≤ src.len)
+    (hsc : src.len ≤ src.cap)
+    (hd : dst.arr = some b) (hfd : Fits h b (dst.off + dst.cap)) (hdl : 16 ≤ dst.len)
+    (hdc : dst.len ≤ dst.cap)
+    (hk : (k (read h { src with len := 16 })).length = 16) :
+    cryptK k h dst src = .ok (poke h b dst.off (k (read h { src with len := 16 }))) := by
+  rw [read_prefix h src a 16 hs] at hk ⊢
+  unfold cryptK blockSize
+  rw [if_neg (by omega), if_neg (by omega), reslice_prefix src 16 (by omega), Outcome.bind_ok,
+    reslice_prefix dst 16 (by omega), Outcome.bind_ok]
+  exact cryptoBlockK_ok k h { src with len := 16 } { dst with len := 16 } a b hs hfs (by show 16 ≤ src.cap; omega)
+    hd hfd (by show 16 ≤ dst.cap; omega) hk
+
+/-- the assembly wrappers reach the same heap (given the read-then-write kernel) -/
+theorem cryptAsmK_ok (k : Bytes → Bytes) (h : Heap) (dst src : Slice) (a b : Nat)
+    (hs : src.arr = some a) (hfs : Fits h a (src.off + src.cap)) (hsl : 16 ≤ src.len)
+    (hsc : src.len ≤ src.cap)
+    (hd : dst.arr = some b) (hfd : Fits h b (dst.off + dst.cap)) (hdl : 16 ≤ dst.len)
+    (hdc : dst.len ≤ dst.cap)
+    (hk : (k (read h { src with len := 16 })).length = 16) :
+    cryptAsmK k h dst src = .ok (poke h b dst.off (k (read h { src with len := 16 }))) := by
+  rw [read_prefix h src a 16 hs] at hk ⊢
+  unfold cryptAsmK blockSize
+  rw [if_neg (by omega), if_neg (by omega), addrOf_ok dst b 0 hd (by omega), Outcome.bind_ok,
+    addrOf_ok src a 0 hs (by omega), Outcome.bind_ok]
+  have h2 : a < h.length ∧ src.off + 16 ≤ (arrayOf h a).length := ⟨hfs.1, by have := hfs.2; omega⟩
+  have hr : readPtr h (some (a, src.off + 0)) 16 = .ok (((arrayOf h a).drop src.off).take 16) := by
+    simp [readPtr, h2]
+  unfold cryptoBlockAsm blockSize
+  rw [hr, Outcome.bind_ok]
+  generalize k (((arrayOf h a).drop src.off).take 16) = out at hk ⊢
+  have h3 : out.isEmpty = false := by
+    cases out with
+    | nil => simp at hk
+    | cons _ _ => rfl
+  have h4 : b < h.length ∧ dst.off + out.length ≤ (arrayOf h b).length :=
+    ⟨hfd.1, by have := hfd.2; omega⟩
+  simp [writePtr, writeAt, h3, h4]
+
+theorem cryptX2K_panic (k : Bytes → Bytes) (h : Heap) (dst src : Slice)
+    (hbad : src.cap < 32 ∨ dst.cap < 32) : cryptX2K k h dst src = .panic := by
+  unfold cryptX2K blockSize
+  by_cases h1 : src.cap < 32
+  · have : ¬ 32 ≤ src.cap := by omega
+    simp [reslice, this]
+  · rcases hbad with hb | hb
+    · exact absurd hb h1
+    · have h2 : 32 ≤ src.cap := by omega
+      have h3 : ¬ 32 ≤ dst.cap := by omega
+      simp [reslice, h2, h3]
+
+/-- `encryptX2`/`decryptX2`: both capacities reach 32: `src[:32]` is read, then `k` of it stored
+    at `dst[:32]` -/
+theorem cryptX2K_ok (k : Bytes → Bytes) (h : Heap) (dst src : Slice) (a b : Nat)
+    (hs : src.arr = some a) (hfs : Fits h a (src.off + src.cap)) (hsc : 32 ≤ src.cap)
+    (hd : dst.arr = some b) (hfd : Fits h b (dst.off + dst.cap)) (hdc : 32 ≤ dst.cap)
+    (hk : (k (read h { src with len := 32 })).length = 32) :
+    cryptX2K k h dst src = .ok (poke h b dst.off (k (read h { src with len := 32 }))) := by
+  rw [read_prefix h src a 32 hs] at hk ⊢
+  unfold cryptX2K blockSize
+  rw [reslice_prefix src (2 * 16) (by omega), Outcome.bind_ok,
+    reslice_prefix dst (2 * 16) (by omega), Outcome.bind_ok]
+  exact cryptoBlockX2K_ok k h { src with len := 32 } { dst with len := 32 } a b hs hfs hsc hd hfd hdc hk
+
+/-! ### what one block store does to the heap -/
+
+theorem read_poke_self (h : Heap) (s : Slice) (b : Nat) (bs : Bytes) (hs : s.arr = some b)
+    (hb : b < h.length) (hfit : s.off + bs.length ≤ (arrayOf h b).length) (hl : s.len = bs.length) :
+    read (poke h b s.off bs) s = bs := by
+  obtain ⟨arr, o, len, cap⟩ := s
+  simp at hs hl hfit; subst hs; subst hl
+  simp only [Mem.read]
+  rw [arrayOf_poke_same h b o bs hb]
+  apply List.ext_getElem?
+  intro i
+  simp only [List.getElem?_take, List.getElem?_drop]
+  by_cases hi : i < bs.length
+  · rw [if_pos hi, getElem?_splice _ _ _ (by omega)]
+    have h1 : ¬ o + i < o := by omega
+    have h2 : o + i < o + bs.length := by omega
+    have h3 : o + i - o = i := by omega
+    simp [h1, h2, h3]
+  · rw [if_neg hi]
+    have : bs.length ≤ i := by omega
+    simp [this]
+
+/-- the store of `n` bytes at `dst[0:n)`: `dst[:n]` shows them, every other byte of the heap is
+    what it was, no array appeared, disappeared or changed its length -/
+theorem block_store (h : Heap) (dst : Slice) (b n : Nat) (out : Bytes) (hd : dst.arr = some b)
+    (hfd : Fits h b (dst.off + dst.cap)) (hn : n ≤ dst.cap) (ho : out.length = n) :
+    read (poke h b dst.off out) { dst with len := n } = out ∧
+    UnchangedOutside h (poke h b dst.off out) (InRegion dst 0 n) ∧
+    (poke h b dst.off out).length = h.length ∧
+    (∀ a, (arrayOf (poke h b dst.off out) a).length = (arrayOf h a).length) ∧
+    (∀ s, Apart s b dst.off n → read (poke h b dst.off out) s = read h s) := by
+  have hfit : dst.off + out.length ≤ (arrayOf h b).length := by have := hfd.2; omega
+  refine ⟨?_, ?_, length_poke h b dst.off out, ?_, ?_⟩
+  · exact read_poke_self h { dst with len := n } b out hd hfd.1 hfit ho.symm
+  · apply GCMGlue.unchanged_poke h b dst.off out hfd.1 hfit
+    intro i h1 h2
+    exact ⟨hd, by omega, by omega⟩
+  · intro a; exact length_arrayOf_poke h b a dst.off out hfit
+  · intro s hs
+    exact read_poke_apart h b dst.off out s hfd.1 hfit (by rw [ho]; exact hs)
+
+/-! ### the wrappers, all cases at once -/
+
+theorem length_read_prefix (h : Heap) (s : Slice) (n : Nat) (hwf : WF h s) (hn : n ≤ s.cap) :
+    (read h { s with len := n }).length = n := by
+  apply length_read h { s with len := n }
+  obtain ⟨arr, o, len, cap⟩ := s
+  exact ⟨hn, hwf.2⟩
+
+/-- what a wrapper call amounts to: a panic, or one store of `out` at the start of `dst` -/
+inductive Effect (h : Heap) (dst : Slice) (n : Nat) (out : Bytes) (r : Outcome Heap) : Prop where
+  | stored (b : Nat) (hd : dst.arr = some b) (hf : Fits h b (dst.off + dst.cap)) (hn : n ≤ dst.cap)
+      (e : r = .ok (poke h b dst.off out))
+
+theorem cryptK_cases (k : Bytes → Bytes) (hk : ∀ x : Bytes, x.length = 16 → (k x).length = 16)
+    (h : Heap) (dst src : Slice) (hwd : WF h dst) (hws : WF h src) :
+    ((src.len < 16 ∨ dst.len < 16) ∧ cryptK k h dst src = .panic) ∨
+    (16 ≤ src.len ∧ 16 ≤ dst.len ∧
+      Effect h dst 16 (k (read h { src with len := 16 })) (cryptK k h dst src)) := by
+  by_cases hbad : src.len < 16 ∨ dst.len < 16
+  · exact Or.inl ⟨hbad, cryptK_panic k h dst src hbad⟩
+  · have hsl : 16 ≤ src.len := by omega
+    have hdl : 16 ≤ dst.len := by omega
+    obtain ⟨a, hs, hfs, hsc⟩ := arr_of_len_pos h src hws (by omega)
+    obtain ⟨b, hd, hfd, hdc⟩ := arr_of_len_pos h dst hwd (by omega)
+    have hkl := hk _ (length_read_prefix h src 16 hws (by omega))
+    exact Or.inr ⟨hsl, hdl, ⟨b, hd, hfd, by omega,
+      cryptK_ok k h dst src a b hs hfs hsl hsc hd hfd hdl hdc hkl⟩⟩
+
+theorem cryptAsmK_cases (k : Bytes → Bytes) (hk : ∀ x : Bytes, x.length = 16 → (k x).length = 16)
+    (h : Heap) (dst src : Slice) (hwd : WF h dst) (hws : WF h src) :
+    ((src.len < 16 ∨ dst.len < 16) ∧ cryptAsmK k h dst src = .panic) ∨
+    (16 ≤ src.len ∧ 16 ≤ dst.len ∧
+      Effect h dst 16 (k (read h { src with len := 16 })) (cryptAsmK k h dst src)) := by
+  by_cases hbad : src.len < 16 ∨ dst.len < 16
+  · exact Or.inl ⟨hbad, cryptAsmK_panic k h dst src hbad⟩
+  · have hsl : 16 ≤ src.len := by omega
+    have hdl : 16 ≤ dst.len := by omega
+    obtain ⟨a, hs, hfs, hsc⟩ := arr_of_len_pos h src hws (by omega)
+    obtain ⟨b, hd, hfd, hdc⟩ := arr_of_len_pos h dst hwd (by omega)
+    have hkl := hk _ (length_read_prefix h src 16 hws (by omega))
+    exact Or.inr ⟨hsl, hdl, ⟨b, hd, hfd, by omega,
+      cryptAsmK_ok k h dst src a b hs hfs hsl hsc hd hfd hdl hdc hkl⟩⟩
+
+theorem cryptX2K_cases (k : Bytes → Bytes) (hk : ∀ x : Bytes, x.length = 32 → (k x).length = 32)
+    (h : Heap) (dst src : Slice) (hwd : WF h dst) (hws : WF h src) :
+    ((src.cap < 32 ∨ dst.cap < 32) ∧ cryptX2K k h dst src = .panic) ∨
+    (32 ≤ src.cap ∧ 32 ≤ dst.cap ∧
+      Effect h dst 32 (k (read h { src with len := 32 })) (cryptX2K k h dst src)) := by
+  by_cases hbad : src.cap < 32 ∨ dst.cap < 32
+  · exact Or.inl ⟨hbad, cryptX2K_panic k h dst src hbad⟩
+  · have hsc : 32 ≤ src.cap := by omega
+    have hdc : 32 ≤ dst.cap := by omega
+    obtain ⟨a, hs, hfs1, hfs2⟩ := arr_of_cap_pos h src hws (by omega)
+    obtain ⟨b, hd, hfd1, hfd2⟩ := arr_of_cap_pos h dst hwd (by omega)
+    have hkl := hk _ (length_read_prefix h src 32 hws hsc)
+    exact Or.inr ⟨hsc, hdc, ⟨b, hd, ⟨hfd1, hfd2⟩, hdc,
+      cryptX2K_ok k h dst src a b hs ⟨hfs1, hfs2⟩ hsc hd ⟨hfd1, hfd2⟩ hdc hkl⟩⟩
+
+/-! ### lengths of the value-level block functions -/
+
+theorem length_cryptoBlock (tb : SM4.Tables) (rk : List W32) (x : Bytes) :
+    (SM4.cryptoBlock tb rk x).length = 16 := by
+  unfold SM4.cryptoBlock
+  simp only []
+  generalize List.foldl _ _ _ = z
+  obtain ⟨z0, z1, z2, z3⟩ := z
+  simp [w32Bytes]
+
+theorem length_cryptoBlockX2 (tb : SM4.Tables) (rk : List W32) (x : Bytes) :
+    (SM4.cryptoBlockX2 tb rk x).length = 32 := by
+  unfold SM4.cryptoBlockX2
+  simp only []
+  generalize List.foldl _ _ _ = z
+  obtain ⟨z0, z1, z2, z3⟩ := z
+  simp [w32Bytes]
+
 end SMGo.Proofs.SM4Wrap
